@@ -2689,6 +2689,101 @@ let with_depth st d =
 let add_seen st p =
   { seen = (p :: st.seen); depth = st.depth; keys = st.keys }
 
+type callback = value -> rstate -> (value * rstate) res
+
+(** val seq_loop :
+    callback -> rstate -> value list -> nat -> value list res **)
+
+let rec seq_loop call st s idx =
+  match s with
+  | [] -> Ok []
+  | it :: s' ->
+    bind (call it (push_list_index st idx)) (fun pat ->
+      let (e, _) = pat in
+      bind (seq_loop call st s' (S idx)) (fun es -> Ok (e :: es)))
+
+(** val vlist_loop :
+    callback -> rstate -> value list -> value -> value res **)
+
+let rec vlist_loop call st l r =
+  match l with
+  | [] -> Ok r
+  | x :: l' ->
+    bind (call x st) (fun pat ->
+      let (iv, st1) = pat in
+      bind (value_merge (current_key st1) r iv) (fun r' ->
+        vlist_loop call st l' r'))
+
+(** val map_loop :
+    callback -> rstate -> entry list -> mapping -> mapping res **)
+
+let rec map_loop call st es acc0 =
+  match es with
+  | [] -> Ok acc0
+  | e :: es' ->
+    let (p, o) = e in
+    let (p0, c) = p in
+    let (k, v) = p0 in
+    bind (push_mapping_key st k) (fun st1 ->
+      bind (call v st1) (fun pat ->
+        let (v', st2) = pat in
+        bind (flattened (current_key st2) v') (fun fv ->
+          bind (insert_impl acc0 k fv c o) (fun acc' ->
+            map_loop call st es' acc'))))
+
+(** val walk_loop :
+    callback -> string -> string list -> value -> rstate -> string list ->
+    (value * rstate) res **)
+
+let rec walk_loop sov path segs v st trav =
+  match segs with
+  | [] -> Ok (v, st)
+  | key :: segs' ->
+    bind (sov v st) (fun pat ->
+      let (newv, st') = pat in
+      (match newv with
+       | VStr _ -> Panic PResolveLookup
+       | VMap m ->
+         (match m_get (VStr key) m with
+          | Some v' -> walk_loop sov path segs' v' st' (app trav (key :: []))
+          | None -> Err (EMissingKey (path, key, (current_key st'))))
+       | VSeq _ -> Err (ELookupSeq (path, key, (current_key st')))
+       | VList _ -> Panic PResolveLookup
+       | _ ->
+         Err (ELookupKind (path, key, (current_key st'),
+           (join (String ((Ascii (false, true, false, true, true, true,
+             false, false)), EmptyString)) trav), (variant newv)))))
+
+(** val slice_loop :
+    (token -> rstate -> (value * rstate) res) -> callback -> callback ->
+    rstate -> token list -> string res **)
+
+let rec slice_loop resolve while_str call st = function
+| [] -> Ok EmptyString
+| t :: ts' ->
+  bind (resolve t st) (fun pat ->
+    let (v, st1) = pat in
+    bind (while_str v st1) (fun pat0 ->
+      let (v', st2) = pat0 in
+      bind
+        (if (||) (is_mapping v') (is_sequence v')
+         then call v' st2
+         else Ok (v', st2)) (fun pat1 ->
+        let (v'', _) = pat1 in
+        bind (raw_string v'') (fun s ->
+          bind (slice_loop resolve while_str call st ts') (fun rest -> Ok
+            (append s rest))))))
+
+(** val sov_loop : callback -> rstate -> value list -> value list res **)
+
+let rec sov_loop call st = function
+| [] -> Ok []
+| x :: l' ->
+  bind
+    (if is_string x
+     then bind (call x st) (fun pat -> let (y, _) = pat in Ok y)
+     else Ok x) (fun x' -> bind (sov_loop call st l') (fun r -> Ok (x' :: r)))
+
 (** val interp : nat -> mapping -> value -> rstate -> (value * rstate) res **)
 
 let rec interp f root v st =
@@ -2705,25 +2800,10 @@ let rec interp f root v st =
      | VMap m ->
        bind (mapping_interp f' root m st) (fun m' -> Ok ((VMap m'), st))
      | VSeq s ->
-       bind
-         (let rec go s0 idx =
-            match s0 with
-            | [] -> Ok []
-            | it :: s' ->
-              bind (interp f' root it (push_list_index st idx)) (fun pat ->
-                let (e, _) = pat in
-                bind (go s' (S idx)) (fun es -> Ok (e :: es)))
-          in go s O) (fun l -> Ok ((VSeq l), st))
+       bind (seq_loop (interp f' root) st s O) (fun l -> Ok ((VSeq l), st))
      | VList l ->
-       bind
-         (let rec go l0 r =
-            match l0 with
-            | [] -> Ok r
-            | x :: l' ->
-              bind (interp f' root x st) (fun pat ->
-                let (iv, st1) = pat in
-                bind (value_merge (current_key st1) r iv) (fun r' -> go l' r'))
-          in go l VNull) (fun r -> interp f' root r st)
+       bind (vlist_loop (interp f' root) st l VNull) (fun r ->
+         interp f' root r st)
      | _ -> Ok (v, st))
 
 (** val mapping_interp :
@@ -2732,20 +2812,7 @@ let rec interp f root v st =
 and mapping_interp f root m st =
   match f with
   | O -> OutOfFuel
-  | S f' ->
-    let rec go es acc0 =
-      match es with
-      | [] -> Ok acc0
-      | e :: es' ->
-        let (p, o) = e in
-        let (p0, c) = p in
-        let (k, v) = p0 in
-        bind (push_mapping_key st k) (fun st1 ->
-          bind (interp f' root v st1) (fun pat ->
-            let (v', st2) = pat in
-            bind (flattened (current_key st2) v') (fun fv ->
-              bind (insert_impl acc0 k fv c o) (fun acc' -> go es' acc'))))
-    in go m []
+  | S f' -> map_loop (interp f' root) st m []
 
 (** val token_render :
     nat -> mapping -> token -> rstate -> (value * rstate) res **)
@@ -2799,34 +2866,8 @@ and token_resolve f root t st =
                       (match m_get (VStr k0) root with
                        | Some v0 ->
                          bind
-                           (let rec walk segs0 v st3 trav =
-                              match segs0 with
-                              | [] -> Ok (v, st3)
-                              | key :: segs' ->
-                                bind (interp_sov f' root v st3) (fun pat ->
-                                  let (newv, st') = pat in
-                                  (match newv with
-                                   | VStr _ -> Panic PResolveLookup
-                                   | VMap m ->
-                                     (match m_get (VStr key) m with
-                                      | Some v' ->
-                                        walk segs' v' st'
-                                          (app trav (key :: []))
-                                      | None ->
-                                        Err (EMissingKey (path, key,
-                                          (current_key st'))))
-                                   | VSeq _ ->
-                                     Err (ELookupSeq (path, key,
-                                       (current_key st')))
-                                   | VList _ -> Panic PResolveLookup
-                                   | _ ->
-                                     Err (ELookupKind (path, key,
-                                       (current_key st'),
-                                       (join (String ((Ascii (false, true,
-                                         false, true, true, true, false,
-                                         false)), EmptyString)) trav),
-                                       (variant newv)))))
-                            in walk segs v0 st2 (k0 :: [])) (fun pat ->
+                           (walk_loop (interp_sov f' root) path segs v0 st2
+                             (k0 :: [])) (fun pat ->
                            let (v, st3) = pat in interp_while f' root v st3)
                        | None ->
                          Err (EMissingKey (path, k0, (current_key st2))))))
@@ -2839,21 +2880,8 @@ and token_slice f root ts st =
   match f with
   | O -> OutOfFuel
   | S f' ->
-    let rec go = function
-    | [] -> Ok EmptyString
-    | t :: ts' ->
-      bind (token_resolve f' root t st) (fun pat ->
-        let (v, st1) = pat in
-        bind (interp_while_str f' root v st1) (fun pat0 ->
-          let (v', st2) = pat0 in
-          bind
-            (if (||) (is_mapping v') (is_sequence v')
-             then interp f' root v' st2
-             else Ok (v', st2)) (fun pat1 ->
-            let (v'', _) = pat1 in
-            bind (raw_string v'') (fun s ->
-              bind (go ts') (fun rest -> Ok (append s rest))))))
-    in go ts
+    slice_loop (token_resolve f' root) (interp_while_str f' root)
+      (interp f' root) st ts
 
 (** val interp_sov :
     nat -> mapping -> value -> rstate -> (value * rstate) res **)
@@ -2865,16 +2893,7 @@ and interp_sov f root v st =
     (match v with
      | VStr _ -> interp f' root v st
      | VList l ->
-       bind
-         (let rec go = function
-          | [] -> Ok []
-          | x :: l' ->
-            bind
-              (if is_string x
-               then bind (interp f' root x st) (fun pat ->
-                      let (y, _) = pat in Ok y)
-               else Ok x) (fun x' -> bind (go l') (fun r -> Ok (x' :: r)))
-          in go l) (fun i ->
+       bind (sov_loop (interp f' root) st l) (fun i ->
          bind (flattened (current_key st) (VList i)) (fun r -> Ok (r, st)))
      | _ -> Ok (v, st))
 
